@@ -115,12 +115,16 @@ def token (a : Nat) (theirPub : Nat) : Nat :=
   if theirPub = pubOf a then 2 * a + 1 else 2 * dh a theirPub
 
 structure Defects where
-  /-- `invite_accepted` removes the consumed invitation from the entry of the NEW PEER's token instead
-      of the invitation's token (peer_manager.rs:680-717): it stays reachable until restart -/
+  /-- `invite_accepted` removed the consumed invitation from the entry of the NEW PEER's token instead
+      of the invitation's token (peer_manager.rs:680-717): it stayed reachable until restart.
+      FIXED in /repo by 7ec64bc (the entry is now looked up under `derive_token("P", invite id)`): off in
+      `asImplemented`; the switch is kept so that the regression witness stays checkable. -/
   inviteRemovedUnderPeerToken : Bool
 deriving DecidableEq, Repr
 
-def Defects.asImplemented : Defects := { inviteRemovedUnderPeerToken := true }
+def Defects.asImplemented : Defects := { inviteRemovedUnderPeerToken := false }
+/-- the code before fix 7ec64bc -/
+def Defects.beforeFix : Defects := { inviteRemovedUnderPeerToken := true }
 def Defects.none : Defects := { inviteRemovedUnderPeerToken := false }
 
 /-- `allowed_token : HashMap<MeetingToken, Vec<TokenType>>` as the list of its (token, entry) pairs in
